@@ -92,7 +92,8 @@ def o1(model: Model, rep: Report):
         rep.info(f"C15.O1: classes exported beyond the documented table (not judged): {extra}")
     N = model.cls("NameBasedOperationsFactory", "addon_openql.operation_factories.factory_basic_operations")
     f = N.resolve("construct")
-    ps = PathEnumerator(Evaluator(model, inline_methods=False)).function_paths(f, self_cls=N)
+    ev1 = Evaluator(model, inline_methods=False)
+    ps = PathEnumerator(ev1).function_paths(f, self_cls=N)
     s = sym(f.self_name)
     op, kernel = sym(f.param_names[1]), sym(f.param_names[2])
     init = N.resolve("__init__")
@@ -100,7 +101,8 @@ def o1(model: Model, rep: Report):
     nparam = sym([p for p in init.param_names if p != init.self_name][0])
     name_attr = [e.term[2] for p in ips for e in p.events if e.kind == "store" and e.term[3] == nparam]
     for p in ps:
-        calls = [e.term for e in p.events if e.kind == "effect"]
+        _not_delegated(p, kernel, f.qualname)
+        calls = [ev1.beta(e.term) for e in p.events if e.kind == "effect"]
         want = ("call", ("attr", kernel, "gate"), (("attr", s, name_attr[0] if name_attr else "?"), ("call", QIDX, (), (("operation", op),))), ())
         rep.check(len(name_attr) == 1 and calls == [want] and p.value == kernel, "C15.O1", "NameBasedOperationsFactory.construct", f.loc, found=[show(c) for c in calls], required=show(want) + "; return kernel",
                   what="a named gate is not emitted once under its configured name on the operation's own qubits", detail="name-factory")
@@ -115,11 +117,22 @@ def o1(model: Model, rep: Report):
     rep.check(ok, "C15.O1", "to_openql", t.loc, found=show(v), required="factory.construct(circuit=circuit, circuit_id=circuit_id)", what="to_openql does not export the given circuit", detail="to-openql")
 
 
+def _not_delegated(p: Path, kernel: Term, who: str):
+    """no verdict when the kernel is handed to a function of the package that makes the calls through a computed method name (an instruction table)"""
+    terms = [e.term for e in p.events if e.term is not None] + ([p.value] if p.value is not None else [])
+    for t in terms:
+        for c in subterms(t, lambda y: y[0] == "call" and isinstance(y[1], tuple) and y[1][0] == "fn"):
+            args = list(c[2]) + [v for _, v in c[3]]
+            if kernel in args:
+                raise AnalysisError(f"{who}: the kernel is handed to {c[1][1]}, which issues the instructions (table-driven): the calls made on it are not read")
+
+
 def kernel_calls(model: Model, p: Path, kernel: Term, depth: int = 0):
     """The calls made on the kernel along ``p``, in order, and what is returned.  A delegation ``<factory object>.construct(operation, kernel)`` to
     another operation factory of the package is replaced by that factory's own kernel calls; the kernel it hands back is the kernel."""
     out: List[Term] = []
     alias: Dict[Term, Term] = {}
+    _not_delegated(p, kernel, "operation factory")
     for e in p.events:
         if e.kind != "effect" or e.term is None:
             continue
